@@ -120,8 +120,10 @@ def run(ctx):
     storefam.histories(ctx, 200 if ctx.tier == "quick" else 2000)
     exe = ctx.build("./cmd/writereplay")
     outp = os.path.join(ctx.scratch, "written.ndjson")
-    r = subprocess.run([exe, "-out", outp, "-seed", str(ctx.seed), "-sets", "60" if thorough else "20", "-scratch",
-                        os.path.join(ctx.scratch, "written")], stdout=subprocess.PIPE, stderr=subprocess.STDOUT, text=True, timeout=1500)
+    # (GOMAXPROCS=2: the digest must not depend on how many processors the process may use - argon2id sets with 4 and 32 threads)
+    r = subprocess.run([exe, "-out", outp, "-seed", str(ctx.seed), "-sets", "60" if thorough else "24", "-scratch",
+                        os.path.join(ctx.scratch, "written")], stdout=subprocess.PIPE, stderr=subprocess.STDOUT, text=True, timeout=1500,
+                       env=dict(os.environ, GOMAXPROCS="2"))
     if r.returncode != 0:
         ctx.fatal("writereplay failed: " + r.stdout[-2000:])
     lines = [json.loads(l) for l in open(outp)]
